@@ -217,6 +217,8 @@ class Env:
         parts.append(z3.Implies(z3.Or(calls >= 1, mwc >= 1, pending >= 1), taken))
         parts.append(z3.Implies(z3.And(calls >= 1, has_mw), z3.And(verdict, mwc == 1)))
         parts.append(z3.Implies(mwc >= 1, has_mw))
+        # I3b: while the chain or a handler is still deciding, the connection has not been answered
+        parts.append(z3.Implies(pending >= 1, z3.And(z3.Not(sent), out == SV(""))))
         # I4: a taken request is not subject to the request timeout any more (C15)
         parts.append(z3.Implies(z3.And(taken, z3.Not(sent)), z3.Not(armed)))
         # I5: while undecided the buffer is what was received, without a complete line
@@ -358,6 +360,9 @@ class Env:
             ctx.oblige(f"{E.current_top}/{what}/requires/C04: the middleware chain admitted this request",
                        z3.Implies(has_mw, z3.And(ctx.getf(p, "g_verdict_allow").z, ctx.getf(p, "g_mw_calls").z == 1)))
             ctx.oblige(f"{E.current_top}/{what}/requires/C07: no handler was invoked before on this connection", ctx.getf(p, "g_handler_calls").z == 0)
+            t_ = ctx.getf(p, "g_T")
+            ctx.oblige(f"{E.current_top}/{what}/requires/C04,C07,C14: the connection has not been answered yet (a request that was refused, timed out or otherwise answered reaches no handler)",
+                       z3.And(z3.Not(ctx.getf(p, "response_sent").z), ctx.getf(t_, "g_out").z == SV("")))
             valid = ctx.getf(request, "g_valid") if isinstance(request, VObj) else None
             ctx.oblige(f"{E.current_top}/{what}/requires/C08: the request passed from_line (protocol-valid line)", valid.z if valid is not None else z3.BoolVal(False))
             ctx.setf(p, "g_handler_calls", VInt(ctx.getf(p, "g_handler_calls").z + 1))
